@@ -103,7 +103,7 @@ theorem C03_wire_reportable_path (id : Ident) (op p : Str) (c : Err) (hk : P.kno
 /-! ### rendering: what is not produced by a safe printer is escaped and enclosed -/
 
 theorem C03_unsafe_entries_enclosed (en : Entry) (h : en.redactable = false) :
-    escIfNeeded true en en.head = escapeBytes en.head ∧ escIfNeeded true en en.details = escapeBytes en.details :=
+    escIfNeeded true en en.head = escapeBytesT (stripT en.head) ∧ escIfNeeded true en en.details = escapeBytesT (stripT en.details) :=
   ⟨C06_unsafe_entry_escaped en _ h, C06_unsafe_entry_escaped en _ h⟩
 
 /-- a foreign leaf (not one of the safe sentinels) is collected as a non-redactable entry -/
